@@ -37,6 +37,13 @@ def gen_program(rng, nrules=None, trailing=False, max_scs=2, csize=None, caseins
                     tries += 1
                 if not patgen.nullable(t):
                     r['trail'] = t
+            # an empty head with trailing context is a zero-length token (the scanner would not advance)
+            tries = 0
+            while r['trail'] is not None and patgen.nullable(r['head']) and tries < 20:
+                r['head'] = g.pat()
+                tries += 1
+            if patgen.nullable(r['head']):
+                r['trail'] = None
         rules.append(r)
     return {'csize': csize, 'caseins': caseins, 'scs': scs, 'rules': rules}
 
